@@ -535,6 +535,62 @@ theorem scalarNoiseOld_counterexample :
     · exact .cons (fun _ => rfl) (.cons (fun e => by cases e) .nil)
   · decide +kernel
 
+/-! ### 6. padding at expression level -/
+
+/-- the second context is the first one with `p` extra trailing (padded) cells in every variable -/
+def EnvPadRel (p : Nat) (ctx ctx' : Ctx) : Prop := ctx.ext = ctx'.ext ∧ Rel2 (PadRel p) ctx.vars ctx'.vars
+
+theorem eval_padding (p : Nat) (e : MExpr) (he : sumFree e = true) (ctx ctx' : Ctx) (h : EnvPadRel p ctx ctx') :
+    PadRes p (eval ctx e) (eval ctx' e) := by
+  induction e with
+  | var i =>
+    simp only [eval]
+    rcases h.2.getElem? i with ⟨h1, h2⟩ | ⟨a, b, h1, h2, hab⟩
+    · simp [h1, h2, PadRes]
+    · simp [h1, h2, PadRes, hab]
+  | bin op a b iha ihb =>
+    simp only [sumFree, Bool.and_eq_true] at he
+    simp only [eval]
+    exact padRes_bind (iha he.1) fun x x' hx => padRes_bind (ihb he.2) fun y y' hy => binop_padRel p _ hx hy
+  | un op fill a ih =>
+    simp only [sumFree] at he
+    simp only [eval]
+    refine padRes_bind (ih he) fun x x' hx => ?_
+    have : op.fn ctx = op.fn ctx' := by cases op <;> simp [UnOp.fn, h.1]
+    rw [this]
+    exact mapOp_padRel p _ _ hx
+  | weighted a ih =>
+    simp only [sumFree] at he
+    simp only [eval]
+    exact padRes_bind (ih he) fun x x' hx => weightedOp_padRel p hx
+  | reweight a b iha ihb =>
+    simp only [sumFree, Bool.and_eq_true] at he
+    simp only [eval]
+    exact padRes_bind (iha he.1) fun x x' hx => padRes_bind (ihb he.2) fun y y' hy => reweight_padRel p hx hy
+  | sumDim keys n a ih => simp [sumFree] at he
+
+
+/-- **Padding at expression level.**  A reduction of a composition that evaluates to a weighted tensor gives exactly
+    the same sums when every variable carries `p` extra trailing cells (weight 0 and arbitrary content for weighted
+    variables, arbitrary values for regular ones) — the padded cells may be attributed to any output cell. -/
+theorem padding_irrelevant (p : Nat) (e : MExpr) (he : sumFree e = true) (ctx ctx' : Ctx) (h : EnvPadRel p ctx ctx')
+    (keys padKeys : List Nat) (n : Nat) (c : WT) (hev : eval ctx e = .ok (.wt c))
+    (hk : keys.length = c.length) (hpk : padKeys.length = p) :
+    eval ctx' (.sumDim (keys ++ padKeys) n e) = eval ctx (.sumDim keys n e) := by
+  have hrel := eval_padding p e he ctx ctx' h
+  rw [hev] at hrel
+  cases h2 : eval ctx' e with
+  | error _ => simp [h2, PadRes] at hrel
+  | ok r =>
+    rw [h2] at hrel
+    cases r with
+    | plain _ => simp [PadRes, PadRel] at hrel
+    | wt c' =>
+      obtain ⟨d, hd, hdf, rfl⟩ := hrel
+      simp only [eval, hev, h2, bind, Except.bind, sumDimOp, MT.length, MT.cells, List.length_append, hk, hpk, hd,
+        ne_eq, not_true_eq_false, if_false]
+      rw [wsumDim_padding_irrelevant XVal.zero keys padKeys n c d hk hdf]
+
 /-! ### non-vacuity -/
 
 /-- `nan`, `inf` and `1e30` under the mask: the sum is the sum of the two observed cells. -/
